@@ -660,6 +660,30 @@ def r41(ctx: Ctx) -> RuleReport:
                     f'`{flag}` is read for every conjunct but a path continues the loop without assigning it ('
                     + ' -> '.join(repr(cfg.nodes[x]) for x in stale[-4:])[:200] + '): once set it stays set, so how an earlier separator was written '
                     'changes how a later role is read (a role that itself starts with "^" loses its first character)' if stale else '')
+    # a leading "^" is taken off a role only when that token was seen to carry the conjunction sign (state from the previous conjunct)
+    for f in local_callees(ctx, pt, depth=1):
+        for n in walk_local(f.node):
+            if not (isinstance(n, ast.Assign) and len(n.targets) == 1 and isinstance(n.targets[0], ast.Name)):
+                continue
+            nm = n.targets[0].id
+            v = n.value
+            cuts_first = isinstance(v, ast.Subscript) and norm(v.value) == nm and isinstance(v.slice, ast.Slice) and v.slice.lower is not None \
+                and try_fold(v.slice.lower) == (True, 1) and v.slice.upper is None
+            cuts_caret = isinstance(v, ast.Call) and isinstance(v.func, ast.Attribute) and norm(v.func.value) == nm \
+                and v.func.attr in ('lstrip', 'removeprefix') and v.args and try_fold(v.args[0]) == (True, '^')
+            if not (cuts_first or cuts_caret):
+                continue
+            fx = facts_ex(ctx, f, n)
+            about_caret = cuts_caret or any(pol and fsrc.replace(' ', '') in (f"{nm}.startswith('^')", f"{nm}[0]=='^'", f"{nm}[:1]=='^'") for fsrc, pol in fx)
+            if not about_caret:
+                continue
+            state = sorted(fsrc for fsrc, pol in fx if pol and fsrc.isidentifier() and fsrc not in ('True', 'False', 'None'))
+            key = f'penman._parse:{f.qualname}: `{norm(n)}` removes the conjunction sign only from a token that was seen to carry it'
+            if state:
+                rep.ok(key, f.loc(n), f'under {state}')
+            else:
+                rep.violation(key, f.loc(n), f'every role token that starts with "^" loses it - also the role of the first conjunct and a role that follows a free-standing "^": '
+                              f'a role whose own name begins with "^" (format_triples writes `^scope(a, b)` for `:^scope`) comes back without it')
     gi = ctx.repo.func('penman.graph', 'Graph.__init__')
     uses = any(isinstance(n, ast.Call) and isinstance(n.func, ast.Name) and n.func.id == '_ensure_colon'
                for n in walk_local(gi.node))
